@@ -264,7 +264,7 @@ def _read_attribute(
         annotation = parsed_attribute_type
     else:
         # try to use the annotation from the parent
-        with suppress(AttributeError, KeyError, TypeError):
+        with suppress(AttributeError, KeyError, TypeError, ValueError):
             # Use subscript syntax to fetch annotation from inherited members too.
             annotation = docstring.parent[name].annotation  # type: ignore[index]
     if name in parsed_values.attributes:
